@@ -385,6 +385,10 @@ func (E *Engine) fieldIsInitOnly(heap string) bool {
 	if v, ok := E.initOnly[name]; ok {
 		return v
 	}
+	if E.contracts.Frozen[name] {
+		E.initOnly[name] = true
+		return true
+	}
 	res := !E.writtenFields[name]
 	if i := strings.LastIndex(name, "."); res && i > 0 {
 		res = !E.embeddedWholeWrites(name[:i])
